@@ -7,5 +7,10 @@
     verif_n_ == 0 ? VERIF_ALLOC_K(T, 0) : verif_n_ == 1 ? VERIF_ALLOC_K(T, 1) : verif_n_ == 2 ? VERIF_ALLOC_K(T, 2) : verif_n_ == 3 ? VERIF_ALLOC_K(T, 3) : \
     verif_n_ == 4 ? VERIF_ALLOC_K(T, 4) : verif_n_ == 5 ? VERIF_ALLOC_K(T, 5) : verif_n_ == 6 ? VERIF_ALLOC_K(T, 6) : verif_n_ == 7 ? VERIF_ALLOC_K(T, 7) : (T *)0; \
     __CPROVER_assume(verif_n_ <= 7 && verif_p_ != NULL); verif_p_; })
+#ifdef SB_BIG
+#define SB_N 4
+#define SB_MAXIDX 6
+#else
 #define SB_N 3
 #define SB_MAXIDX 4
+#endif
